@@ -42,6 +42,10 @@ check("C20", "exploration", "E", "exhaustive enumeration of every ordered list o
       "The property's quantifier (0..4 fake detectors, finding lists with shared/distinct ids, equal/unequal bodies, missing advisories, errors; arbitrary inventories incl. packages without PURL) is enumerated completely up to lists of 2 full scripts / 3-4 short scripts.",
       "Trusted: 60-line reference model. Don't-care: overall status when a detector errs but findings are consistent.", "DESIGN §5 C20")
 
+check("C10", "fault_enumeration", "F", "exhaustive enumeration of limit values around each boundary and of every cancellation point of the uncancelled event log, differential against the uncancelled run",
+      "For every small tree the inode/size limits take every value around their boundary, and the context is cancelled inside every event of the uncancelled run (each inode visit, Extract, AfterExtractorRun, standalone extractor, detector, and before Scan); the hard-bound invariants are checked on each run; image byte limit at L-1/L/L+1.",
+      "Trusted: the cancelling hooks run synchronously inside the scan's own callbacks, so the cancellation instant is exact. Outside: trees > 5/6 nodes; cancellation from another goroutine at arbitrary instruction boundaries.", "DESIGN §5 C10")
+
 ALL = ["C%02d" % i for i in range(1, 21)]
 for p in ALL:
     if p not in CHECKS:
